@@ -204,10 +204,19 @@ func (sa *Safe) step(fr *frame, st *State, ins ssa.Instruction) {
 	case *ssa.MakeMap:
 		fr.regs[x] = AVal{Kind: avMap, NonNil: true, Type: x.Type()}
 	case *ssa.MakeChan, *ssa.MakeClosure:
-		if _, ok := x.(*ssa.MakeClosure); ok {
-			sa.unsup(ins.Pos(), "closure in %s", fr.fn.String())
+		v := AVal{Kind: avFunc, NonNil: true, Type: ins.(ssa.Value).Type()}
+		if mc, ok := x.(*ssa.MakeClosure); ok {
+			if f, isFn := mc.Fn.(*ssa.Function); isFn && repoFn(f) {
+				clo := &aClosure{fn: f}
+				for _, b := range mc.Bindings {
+					clo.bind = append(clo.bind, sa.val(fr, st, b))
+				}
+				v.Clo = clo
+			} else {
+				sa.unsup(ins.Pos(), "closure in %s", fr.fn.String())
+			}
 		}
-		fr.regs[ins.(ssa.Value)] = AVal{Kind: avFunc, NonNil: true, Type: ins.(ssa.Value).Type()}
+		fr.regs[ins.(ssa.Value)] = v
 	case *ssa.MapUpdate:
 		m := sa.val(fr, st, x.Map)
 		sa.needNonNil(fr, st, m, exprText(x.Map), x.Pos())
@@ -532,7 +541,13 @@ func (sa *Safe) binop(fr *frame, st *State, x *ssa.BinOp) AVal {
 			key := fmt.Sprintf("%s|%d", a.Lin.key(), cb)
 			qr, ok := sa.divMemo[key]
 			if !ok {
-				qa := sa.u.newAtom(exprText(x.X)+"/"+fmt.Sprint(cb), Itv{0, posInf})
+				// the quotient of a value of type t by cb cannot exceed max(t)/cb: its declared range
+				// (what widening falls back to) says so
+				qhi := int64(posInf)
+				if rgT, okT := intRange(t); okT && rgT.Hi < posInf {
+					qhi = rgT.Hi / cb
+				}
+				qa := sa.u.newAtom(exprText(x.X)+"/"+fmt.Sprint(cb), Itv{0, qhi})
 				ra := sa.u.newAtom(exprText(x.X)+"%"+fmt.Sprint(cb), Itv{0, cb - 1})
 				for at := range a.Lin.T {
 					sa.u.atoms[qa].Deps = append(sa.u.atoms[qa].Deps, at)
@@ -763,4 +778,24 @@ func stdSentinelError(g *ssa.Global) bool {
 		return false
 	}
 	return g.Name() == "EOF" || strings.HasPrefix(g.Name(), "Err")
+}
+
+
+// repoFn: a function of this repository whose body is analysed in place — including generic
+// instances (their package is that of the generic function) and synthetic wrappers (bound methods,
+// thunks) of repository methods.
+func repoFn(f *ssa.Function) bool {
+	if f == nil || f.Blocks == nil {
+		return false
+	}
+	if f.Pkg != nil {
+		return IsRepoPkg(f.Pkg.Pkg)
+	}
+	if o := f.Origin(); o != nil && o.Pkg != nil {
+		return IsRepoPkg(o.Pkg.Pkg)
+	}
+	if f.Synthetic != "" && f.Object() != nil && f.Object().Pkg() != nil {
+		return IsRepoPkg(f.Object().Pkg())
+	}
+	return false
 }
